@@ -292,3 +292,62 @@ Proof.
     + exists e, ln. split; [reflexivity|]. apply (front_error_in_stream _ _ _ Ef).
   - exfalso. apply (Hc c). exact Ef.
 Qed.
+
+(* ---- where the unchanged code leaves the grammar: witnesses -------------- *)
+
+Lemma flatten_nonempty t : flatten t <> [].
+Proof. destruct t; simpl; discriminate. Qed.
+
+Lemma flatten_single t s : flatten t = [s] -> t = TStmt s.
+Proof.
+  destruct t as [s'|k o b e]; simpl; intros H.
+  - inversion H. reflexivity.
+  - inversion H as [[E1 E2]]. destruct (flat_map flatten b); simpl in E2; discriminate.
+Qed.
+
+(* a CASE ELSE outside any SELECT is accepted *)
+Lemma case_else_accepted_refuted :
+  exists l ts, front l = ROk ts /\ ~ balanced l.
+Proof.
+  exists [mkS SCaseElse 1], [TStmt (mkS SCaseElse 1)]. split; [reflexivity|].
+  intros [ts [Hw Hf]]. destruct ts as [|t ts]; [discriminate|].
+  rewrite flatten_forest_cons in Hf.
+  destruct (flatten t) as [|s r] eqn:Et; [exact (flatten_nonempty t Et)|].
+  simpl in Hf. inversion Hf as [[Es Er]]. subst s.
+  destruct r; [|discriminate].
+  apply flatten_single in Et. subst t.
+  inversion Hw as [|? ? Ht _]; subst. inversion Ht as [? ? Hs|]; subst. discriminate.
+Qed.
+
+(* SELECT CASE x / CASE ELSE / END SELECT is in the grammar but rejected *)
+Lemma case_else_first_rejected_refuted :
+  exists l e ln, balanced l /\ front l = RErr e ln.
+Proof.
+  exists [mkS SSelect 1; mkS SCaseElse 2; mkS SEndSelect 3], ESelectBeforeCase, 2.
+  split; [|reflexivity].
+  exists [TBlock BSelect (mkS SSelect 1) [TStmt (mkS SCaseElse 2)] (mkS SEndSelect 3)].
+  split; [|reflexivity].
+  constructor; [|constructor].
+  apply wfs_block; try reflexivity.
+  - simpl. right. exists (mkS SCaseElse 2), []. split; [reflexivity|]. right. split; reflexivity.
+  - apply kids_marker; [reflexivity | apply kids_nil].
+Qed.
+
+(* static block faults that end in an internal exception instead of a diagnostic *)
+Lemma second_else_crash_refuted :
+  front [mkS SIfOpen 1; mkS SElse 2; mkS SElse 3; mkS SEndIf 4] = RCrash CAssertIf.
+Proof. reflexivity. Qed.
+
+Lemma elseif_after_else_crash_refuted :
+  front [mkS SIfOpen 1; mkS SElse 2; mkS SElseIf 3; mkS SEndIf 4] = RCrash CAssertIf.
+Proof. reflexivity. Qed.
+
+Lemma stray_case_crash_refuted : front [mkS SCase 1] = RCrash CCodegen.
+Proof. reflexivity. Qed.
+
+Lemma else_in_nested_block_crash_refuted :
+  front [mkS SIfOpen 1; mkS SWhile 2; mkS SElse 3; mkS SWend 4; mkS SEndIf 5] = RCrash CCodegen.
+Proof. reflexivity. Qed.
+
+Lemma stray_field_crash_refuted : front [mkS (SField 0) 1] = RCrash CCodegen.
+Proof. reflexivity. Qed.
